@@ -816,6 +816,9 @@ func (i *Iter) Root(dst *Iter) (Type, *Iter, error) {
 	if i.cur > uint64(len(i.tape.Tape)) {
 		return TypeNone, dst, errors.New("root element extends beyond tape")
 	}
+	if i.cur < uint64(i.off) {
+		return TypeNone, dst, errors.New("root element is a closing root")
+	}
 	if dst == nil {
 		c := *i
 		dst = &c
